@@ -77,7 +77,7 @@ impl Property for C17 {
             (Tier::Thorough, false) => 16,
             (Tier::Thorough, true) => 8,
         };
-        let src = prop_oneof![4 => Just(KeySource::Dealer), 1 => Just(KeySource::Dkg)];
+        let src = prop_oneof![4 => Just(KeySource::Dealer), 1 => Just(KeySource::Dkg), 1 => Just(KeySource::DealerRefreshed), 1 => Just(KeySource::Repaired)];
         (shape_strategy(nmax), idspec_strategy(None), src, subset_strategy(None), msg_short_strategy(), any::<u64>())
             .prop_map(move |(shape, ids, source, subset, msg, seed)| {
                 let shape = if source == KeySource::Dkg { Shape { n: shape.n.min(5), t: shape.t.min(shape.n.min(5)) } } else { shape };
@@ -103,7 +103,7 @@ impl Property for C17 {
     }
 }
 
-fn rand_pubkeys<C: Suite>(pk: &PublicKeyPackage<C>, alpha: Sc<C>) -> PublicKeyPackage<C> {
+pub fn rand_pubkeys<C: Suite>(pk: &PublicKeyPackage<C>, alpha: Sc<C>) -> PublicKeyPackage<C> {
     let a = gen_::<C>() * alpha;
     let vs: BTreeMap<Id<C>, VerifyingShare<C>> = pk.verifying_shares().iter().map(|(i, v)| (*i, VerifyingShare::new(v.to_element() + a))).collect();
     PublicKeyPackage::new(vs, VerifyingKey::new(pk.verifying_key().to_element() + a), pk.min_signers())
